@@ -131,15 +131,19 @@ structure ScanOut where
   toLoad : List Bytes
   deriving Repr, DecidableEq
 
+/-- keys to (re)load: in the new table with a stamp that is not the remembered one -/
+def loadKeys (ts old : Table Stamp) : List Bytes := (ts.filter fun kv => old.get? kv.1 != some kv.2).map (·.1)
+
+/-- keys to drop: remembered, no longer in the new table -/
+def dropKeys (ts old : Table Stamp) : List Bytes := (old.filter fun kv => (ts.get? kv.1).isNone).map (·.1)
+
 /-- `DirectoryWatcher.scan`. `old` = `s.timestamps` before. Lists are in listing order / `old` order
     (Go iterates maps in random order; the harness sorts). -/
 def scan (fixed : Bool) (fv nv : Int) (fs : List Ent) (old : Table Stamp) : Outcome ScanOut :=
   match latestOf fixed fv nv fs with
   | .ok latest =>
     let ts := tsOf fixed latest fs
-    let toLoad := (ts.filter fun (k, st) => old.get? k != some st).map (·.1)
-    let toDrop := (old.filter fun (k, _) => (ts.get? k).isNone).map (·.1)
-    .ok ⟨ts, toDrop, toLoad⟩
+    .ok ⟨ts, dropKeys ts old, loadKeys ts old⟩
   | .err x => .err x
   | .panic s => .panic s
   | .diverge => .diverge
@@ -164,12 +168,15 @@ structure WState where
 
 def Table.erase {β} (t : Table β) (k : Bytes) : Table β := t.filter (·.1 != k)
 
-/-- `loader.drop(toDrop...)` then `loader.load(toLoad...)` (every load succeeds and reads the current content) -/
+/-- `loader.load` of one key: every load succeeds and reads the file's current content -/
+def loadOne (d : Disk) (acc : Table Nat) (k : Bytes) : Table Nat :=
+  match d.content? k with
+  | some c => acc.put k c
+  | none => acc
+
+/-- `loader.drop(toDrop...)` then `loader.load(toLoad...)` -/
 def applyLoads (d : Disk) (loaded : Table Nat) (toDrop toLoad : List Bytes) : Table Nat :=
-  let l1 := toDrop.foldl (fun acc k => acc.erase k) loaded
-  toLoad.foldl (fun acc k => match d.content? k with
-    | some c => acc.put k c
-    | none => acc) l1
+  toLoad.foldl (loadOne d) (toDrop.foldl Table.erase loaded)
 
 def scanStep (fv nv : Int) (w : WState) (d : Disk) : WState :=
   match scan true fv nv d.ents w.ts with
